@@ -91,6 +91,10 @@ var zenc, _ = zstd.NewWriter(nil)
 // Frame_Content_Size field (klauspost omits it for small multi-segment frames).
 var zencDeclared, _ = zstd.NewWriter(nil, zstd.WithSingleSegment(true))
 
+// zencStream is the streaming encoder (reused via Reset) for frames whose header
+// goes out before the content size is known.
+var zencStream, _ = zstd.NewWriter(nil, zstd.WithWindowSize(1024), zstd.WithEncoderConcurrency(1))
+
 func zstdBytes(raw []byte) []byte { return zenc.EncodeAll(raw, nil) }
 
 func zstdDecode(b []byte) ([]byte, error) {
@@ -110,10 +114,8 @@ func zstdFrame(chunk []byte, declare bool) ([]byte, error) {
 		out = zencDeclared.EncodeAll(chunk, nil)
 	} else {
 		var buf bytes.Buffer
-		w, err := zstd.NewWriter(&buf, zstd.WithWindowSize(1024), zstd.WithEncoderConcurrency(1))
-		if err != nil {
-			return nil, err
-		}
+		w := zencStream
+		w.Reset(&buf)
 		h := len(chunk) / 2
 		w.Write(chunk[:h])
 		w.Flush() // the frame header goes out before the size is known
